@@ -71,10 +71,13 @@ def monitor_trace(tr):
     algo = cfg['algo']
     raising = set(cfg['raising'])
     hist_calls = 0
+    evaluated_ok = set()        # keys evaluated successfully while a lossless archive stayed attached
     for rec in tr['recs']:
         op, out, b, a = rec['op'], rec['out'], rec['before'], rec['after']
         kind = op[0]
         tags[kind] += 1
+        if kind in ('clear', 'off', 'on', 'setarch', 'extdel') or b['arch'] is None:
+            evaluated_ok = set()    # the property allows re-evaluation after these
         if kind not in ('call', 'callbad'):
             if kind in ('lookup', 'key', 'info', 'archivedq'):
                 if (b['mem'], b['arch'], b['swap'], b['stats']) != (a['mem'], a['arch'], a['swap'], a['stats']) or (isinstance(out, dict) and out.get('evals')):
@@ -136,6 +139,11 @@ def monitor_trace(tr):
             else:
                 cls = 'hit' if in_mem else ('load' if in_arch else 'miss')
             tags[cls] += 1
+            if evals and completed and archived:
+                if k in evaluated_ok:
+                    viol.append(dict(prop='C02', i=rec['i'], sig=dict(kind='reevaluated-with-archive', algo=algo, purge=cfg['purge']),
+                                     msg='x=%r evaluated again although a lossless archive stayed attached and nothing was cleared' % (x,)))
+                evaluated_ok.add(k)
             exp_eval = 1 if cls == 'miss' else 0
             if evals != exp_eval:
                 viol.append(dict(prop='C02', i=rec['i'], sig=dict(kind='eval-count', algo=algo, cls=cls, evals=evals),
@@ -202,3 +210,62 @@ def monitor_trace(tr):
         if not overflowed and left and algo not in ('no',) and not (keyok and algo != 'inf' and len(bm) + 1 > cfg['maxsize']):
             viol.append(dict(prop='C06', i=rec['i'], sig=dict(kind='evicted-without-overflow', algo=algo), msg='entries %r left without overflow' % left))
     return viol, tags
+
+
+# ------------------------------------------------------------------ twin runs (hyper-properties)
+def twin_violations(prop, tr):
+    """C16 / C18 say "exactly as if the call had not been made".  Re-run the history without the
+    raising / un-keyable calls (C16) or without the introspection ops (C18) and compare every
+    remaining operation's outcome and the state after it."""
+    import suite_wrapper as sw
+    cfg = tr['cfg']
+    drop = set()
+    for rec in tr['recs']:
+        op, out = rec['op'], rec['out']
+        if prop == 'C16' and op[0] in ('call', 'callbad'):
+            key, fn = rec['line']['key'], rec['line']['fn']
+            b = rec['before']
+            retrievable = 'ok' in key and (key['ok'] in dict(map(tuple, b['mem'])) or (b['arch'] is not None and key['ok'] in dict(map(tuple, b['arch']))))
+            if 'ok' in key and 'err' in fn and not retrievable:
+                drop.add(rec['i'])
+            if 'ok' not in key and cfg['safe']:
+                drop.add(rec['i'])
+        if prop == 'C18' and op[0] in ('lookup', 'key', 'info', 'archivedq'):
+            drop.add(rec['i'])
+    if not drop:
+        return [], 0
+    ops2 = [op for i, op in enumerate(tr['ops']) if i not in drop]
+    tw = sw.run_trace(cfg, ops2)
+    if tw['err']:
+        return [dict(prop=prop, i=0, sig=dict(kind='twin-crashed'), msg=tw['err'][-300:])], len(drop)
+    viol = []
+    j = 0
+    miss_off = 0
+    def dec(t, pairs):
+        return None if pairs is None else sorted((t['keys'][k], t['vals'][v]) for k, v in pairs)
+    def deco(t, out):
+        if isinstance(out, dict) and 'ret' in out:
+            return dict(out, ret=t['vals'][out['ret']])
+        return out
+    for rec in tr['recs']:
+        if rec['i'] in drop:
+            if prop == 'C16' and isinstance(rec['out'], dict) and 'ret' in rec['out']:
+                miss_off += 1          # a completed safe fall-back counts one miss
+            continue
+        t = tw['recs'][j]; j += 1
+        if rec['op'][0] == 'clear' and not rec['op'][1]:
+            miss_off = 0
+        a, b = rec['after'], t['after']
+        sa = list(a['stats']); sa[1] -= miss_off
+        am, bm = dec(tr, a['mem']), dec(tw, b['mem'])
+        aa, ba = dec(tr, a['arch']), dec(tw, b['arch'])
+        o1, o2 = deco(tr, rec['out']), deco(tw, t['out'])
+        same = (o1 == o2 or rec['op'][0] in ('info',)) and am == bm and aa == ba and dec(tr, a['swap']) == dec(tw, b['swap']) and sa == b['stats']
+        if not same:
+            what = 'out' if o1 != o2 else ('mem' if am != bm else ('arch' if aa != ba else 'stats'))
+            viol.append(dict(prop=prop, i=rec['i'], sig=dict(kind='not-as-if-never-made', algo=cfg['algo'], safe=cfg['safe'], differs=what),
+                             msg='history with and without the %s differs at op %d %r (%s): %r vs %r' % (
+                                 'raising/un-keyable calls' if prop == 'C16' else 'introspection calls', rec['i'], rec['op'], what,
+                                 (o1, am, a['stats']), (o2, bm, b['stats']))))
+            break
+    return viol, len(drop)
